@@ -197,10 +197,50 @@ let net lines =
   | Rejected (n, w, x) ->
     Printf.printf "REJECT %d %s\n" (int_of_nat n) (why (int_of_nat w)); net_dump !nn (List.length edges) x
 
+(* ------------------------------------------------------------------ one in-port with several upstreams *)
+let port lines =
+  let ns = ref 0 and cap = ref 1 and plans = Hashtbl.create 8 and script = ref [] in
+  let act k =
+    let n k = nat_of_int (int k) in
+    match next k with
+    | "send" -> RPI.a_send (n k)
+    | "close" -> RPI.a_close (n k)
+    | "recv" -> RPI.a_recv (n k)
+    | "seeclosed" -> RPI.a_seeclosed
+    | w -> failwith ("port action " ^ w) in
+  List.iter (fun toks ->
+    let k = { t = toks } in
+    match next k with
+    | "port" -> ns := int k; cap := int k
+    | "plan" -> let r = int k in Hashtbl.replace plans r (intl k)
+    | "do" -> script := Do (act k) :: !script
+    | "begin" -> let id = int k in script := Begin (nat_of_int id, act k) :: !script
+    | "end" -> script := End (nat_of_int (int k)) :: !script
+    | "chk" ->
+      let tag = int k in
+      (match next k with
+       | "last" -> let r = int k in let it = int k in
+         script := Chk (nat_of_int tag, (fun s -> match List.rev (RPI.hist_of s) with (a, b) :: _ -> int_of_nat a = r && int_of_nat b = it | [] -> false)) :: !script
+       | p -> failwith ("port chk " ^ p))
+    | w -> failwith ("port line " ^ w)) lines;
+  let c = RPI.mk_cfg (nat_of_int !ns) (fun r -> match Hashtbl.find_opt plans (int_of_nat r) with Some l -> nl l | None -> []) (nat_of_int !cap) in
+  let dump s =
+    let (cl, se) = RPI.flags s in
+    Printf.printf "closed %d seen %d\n" (if cl then 1 else 0) (if se then 1 else 0);
+    for r = 0 to !ns - 1 do
+      let ((a, b), o) = RPI.counts s (nat_of_int r) in
+      Printf.printf "sender %d sent %d rcv %d open %d\n" r (int_of_nat a) (int_of_nat b) (if o then 1 else 0)
+    done;
+    Printf.printf "hist %s\n" (String.concat " " (List.map (fun (a, b) -> Printf.sprintf "%d:%d" (int_of_nat a) (int_of_nat b)) (RPI.hist_of s))) in
+  match RP.port_replay c (List.rev !script) with
+  | Accepted (s, sched, pend) -> Printf.printf "ACCEPT %d %s\n" (List.length sched) (ints (il pend)); dump s
+  | Rejected (n, w, s) -> Printf.printf "REJECT %d %s\n" (int_of_nat n) (why (int_of_nat w)); dump s
+
 let () =
   let lines = read_lines () in
   match Sys.argv.(1) with
   | "slots" -> slots lines
   | "tasks" -> tasks lines
   | "net" -> net lines
+  | "port" -> port lines
   | s -> failwith ("unknown system " ^ s)
